@@ -4,7 +4,7 @@
    bookkeeping, missing-peer unwrap) from a state satisfying NodeInv. *)
 From RV Require Import Base.Prelude Base.IdSet M.Util M.Proto M.MemStorage M.Inflights
   M.InflightsProofs M.Progress M.RaftLog M.Quorum M.ConfChange M.Msg M.Raft M.RawNode
-  M.RaftProofs M.RaftProofsC15 M.RaftProofsC20 M.RaftProofsC20Iff M.RaftProofsC20Inv.
+  M.RaftProofs M.RaftProofsC15 M.RaftProofsC09 M.RaftProofsC20 M.RaftProofsC20Iff M.RaftProofsC20Inv.
 From RecordUpdate Require Import RecordSet.
 Import RecordSetNotations.
 
@@ -84,6 +84,7 @@ Create HintDb prok.
 #[export] Hint Extern 1 (pr_ok (set_commit_group_id _ _)) => apply pr_ok_misc : prok.
 #[export] Hint Extern 4 (pr_ok ?p) => match goal with H : pr_ok p |- _ => exact H end : prok.
 #[export] Hint Extern 3 (Inv _) => assumption : prok.
+#[export] Hint Extern 2 (pr_ok (if ?c then _ else _)) => destruct c : prok.
 
 Ltac solve_prok := solve [eauto 8 with prok nocore].
 
@@ -210,8 +211,9 @@ Ltac solve_post :=
 Ltac solve_contra :=
   solve [ repeat match goal with H : pr_ok _ |- _ => destruct H as [? ?] end; lia
         | match goal with
-          | H : pget ?M ?id = None, K : hasL ?M ?id |- _ =>
-              let q := fresh in destruct K as [q K]; congruence
+          | H : pget ?M ?id = None |- _ =>
+              let K := fresh in let q := fresh in
+              assert (K : hasL M id) by solve_hasL 12%nat; destruct K as [q K]; congruence
           end ].
 
 #[export] Hint Extern 1 (is_paused _ = false) => assumption : safe.
@@ -551,4 +553,76 @@ Proof. intros H. destruct (inf_set_cap_ok i c H) as (i' & E & H'). rewrite E. ex
 #[export] Hint Extern 2 (Inv (ins ?p)) =>
   let X := fresh in assert (X : pr_ok p) by solve_prok; exact (proj1 X) : safe.
 #[export] Hint Extern 3 (Inv _) => assumption : prok.
+#[export] Hint Extern 2 (pr_ok (if ?c then _ else _)) => destruct c : prok.
 
+
+Lemma handle_append_response_safe r m : NodeInv r -> safe (post r) (handle_append_response r m).
+Proof. intros H. unfold handle_append_response. ssafe. Qed.
+#[export] Hint Extern 1 (safe _ (handle_append_response _ _)) => eapply handle_append_response_safe : safe.
+
+Lemma handle_heartbeat_response_safe r m : NodeInv r -> safe (post r) (handle_heartbeat_response r m).
+Proof. intros H. unfold handle_heartbeat_response. ssafe. Qed.
+#[export] Hint Extern 1 (safe _ (handle_heartbeat_response _ _)) => eapply handle_heartbeat_response_safe : safe.
+
+
+Lemma handle_transfer_leader_safe r m : NodeInv r -> safe (post r) (handle_transfer_leader r m).
+Proof. intros H. unfold handle_transfer_leader. ssafe. Qed.
+#[export] Hint Extern 1 (safe _ (handle_transfer_leader _ _)) => eapply handle_transfer_leader_safe : safe.
+
+Lemma handle_snapshot_status_safe r m : NodeInv r -> safe (post r) (handle_snapshot_status r m).
+Proof. intros H. unfold handle_snapshot_status. ssafe. Qed.
+#[export] Hint Extern 1 (safe _ (handle_snapshot_status _ _)) => eapply handle_snapshot_status_safe : safe.
+
+Lemma handle_unreachable_safe r m : NodeInv r -> safe (post r) (handle_unreachable r m).
+Proof. intros H. unfold handle_unreachable. ssafe. Qed.
+#[export] Hint Extern 1 (safe _ (handle_unreachable _ _)) => eapply handle_unreachable_safe : safe.
+
+Lemma NodeInv_quorum_recently_active r :
+  NodeInv r -> NodeInv (r <| r_prs := fst (quorum_recently_active (r_prs r) (r_id r)) |>) /\
+               keeps r (r <| r_prs := fst (quorum_recently_active (r_prs r) (r_id r)) |>).
+Proof.
+  intros [A B]. unfold quorum_recently_active. cbn [fst].
+  set (f := fun (k : N) (p : progress) => set_recent_active p (k =? r_id r)).
+  split.
+  - split; [|exact B]. cbn [r_prs t_progress].
+    change (PrsOk (map (fun kp => (fst kp, f (fst kp) (snd kp))) (t_progress (r_prs r)))).
+    apply PrsOk_map; [|exact A]. intros k p Hp. exact Hp.
+  - unfold keeps, keepsL, hasL. cbn [r_prs t_progress]. intros id [p Hp].
+    change (exists p0, pget (map (fun kp => (fst kp, f (fst kp) (snd kp))) (t_progress (r_prs r))) id = Some p0).
+    rewrite (pget_map f), Hp. cbn [option_map]. eauto.
+Qed.
+
+Lemma step_leader_safe r m : NodeInv r -> safe (fun x => NodeInv (fst x)) (step_leader r m).
+Proof.
+  intros H. unfold step_leader. cbv zeta.
+  destruct (NodeInv_quorum_recently_active r H) as [Hq Kq].
+  destruct (quorum_recently_active (r_prs r) (r_id r)) as [prs' active]. cbn [fst] in Hq, Kq.
+  destruct (filter_conf_changes r (m_entries m) (m_ccinfo m) 0) as [[r1 ents] ok] eqn:Ef.
+  apply filter_frame in Ef. rewrite Ef. clear Ef.
+  generalize (r_pending_conf_index r1). intros pci. clear r1.
+  ssafe.
+Qed.
+#[export] Hint Extern 1 (safe _ (step_leader _ _)) => eapply step_leader_safe : safe.
+
+Definition snap_ok (m : msg) : Prop := m_type m = MsgSnapshot -> 1 <= s_index (m_snapshot m).
+
+#[export] Hint Extern 3 (1 <= s_index (m_snapshot _)) =>
+  first [ assumption
+        | match goal with
+          | Hs : snap_ok _ |- _ =>
+              apply Hs; unfold MsgSnapshot, MsgAppend, MsgHeartbeat in *; lia
+          end ] : safe.
+
+Lemma step_candidate_safe r m :
+  NodeInv r -> snap_ok m -> safe (fun x => NodeInv (fst x)) (step_candidate r m).
+Proof. intros H Hs. unfold step_candidate. ssafe. Qed.
+#[export] Hint Extern 1 (safe _ (step_candidate _ _)) => eapply step_candidate_safe : safe.
+
+Lemma step_follower_safe r m :
+  NodeInv r -> snap_ok m -> safe (fun x => NodeInv (fst x)) (step_follower r m).
+Proof. intros H Hs. unfold step_follower. ssafe. Qed.
+#[export] Hint Extern 1 (safe _ (step_follower _ _)) => eapply step_follower_safe : safe.
+#[export] Hint Extern 1 (snap_ok _) => assumption : safe.
+
+Theorem step_safe r m : NodeInv r -> snap_ok m -> safe (fun x => NodeInv (fst x)) (step r m).
+Proof. intros H Hs. unfold step. ssafe. Show. Qed.
